@@ -10,7 +10,7 @@ for pkg in "$@"; do
     # copy a demo into the package whose name matches its package clause
     want=$(basename $pkg); have=$(grep -m1 '^package ' $f | awk '{print $2}' | sed 's/_test$//')
     case "$want" in server|agent|handlers|packager|db|parser|builder|profile|hclsyntax|hclwrite|json|gohcl) ;; esac
-    if [ -n "${FORCE_COPY:-}" ] || [ "$have" = "$want" ] || { [ "$want" = "server" ] && [ "$have" = "server" ]; }; then cp $f "$WT/teamserver/$pkg/"; fi
+    if [ -n "${FORCE_COPY:-}" ] || [ "$have" = "$want" ] || { [ "$want" = "server" ] && [ "$have" = "server" ]; }; then mkdir -p "$WT/teamserver/$pkg"; cp $f "$WT/teamserver/$pkg/"; fi
   done
   PK="$PK ./$pkg/"
 done
